@@ -381,6 +381,13 @@ HandedAt(g, o) == IF Has(g.handed, "id", o.id) THEN Get(g.handed, "id", o.id).h 
 C12_ResolvedByBound(s, g) ==
     \A i \in 1..Len(s.orders) : LET o == s.orders[i] IN
         Unfinished(s, o) => s.h <= HandedAt(g, o) + Max2(o.dur, 12 * o.timeout) + 1
+\* ... and long before the end of a long term: a stalled shard goes to ANOTHER provider each time - every provider takes at most
+\* one turn on an order - so after the ten intervals of waiting and one turn for every node there is, nobody is left to find and
+\* the unfinished part is given up (an order that keeps being "re-assigned" beyond that is being handed to providers it
+\* already has)
+C12_GivenUpInTime(s, g) ==
+    \A i \in 1..Len(s.orders) : LET o == s.orders[i] IN
+        Unfinished(s, o) => s.h <= HandedAt(g, o) + (12 + Len(s.nodes)) * o.timeout + 1
 
 \* C15: newly assigned providers are distinct, not already involved, and eligible (tx steps)
 Eligible(s, a, size) ==
